@@ -514,6 +514,8 @@ pub struct AuxFault {
     pub col: usize,
     pub step: usize,
     pub delta: u64,
+    /// subtract instead of add
+    pub neg: bool,
 }
 
 /// What the prover node did, for the harness to inspect afterwards.
@@ -624,7 +626,11 @@ where
         // F2: a cell of the stored auxiliary trace is corrupted before it is committed
         if let Some(f) = &self.aux_fault {
             if f.col < cols.len() && f.step < n {
-                cols[f.col][f.step] += felt::<E>(f.delta.max(1));
+                if f.neg {
+                    cols[f.col][f.step] -= felt::<E>(f.delta.max(1));
+                } else {
+                    cols[f.col][f.step] += felt::<E>(f.delta.max(1));
+                }
             }
         }
         let mut rec = self.record.borrow_mut();
